@@ -19,6 +19,9 @@ package assign
 //@ pred RV(v value.Value) = v.(*value.RTime).Value
 //@ pred BV(v value.Value) = v.(*value.Boolean).Value
 //@ pred noInfI(v value.Value) = !v.(*value.Integer).IsPositiveInf && !v.(*value.Integer).IsNegativeInf
+//@ pred IF(l value.Value, r value.Value) = is(l, *value.Integer) && is(r, *value.Float)
+//@ pred FI(l value.Value, r value.Value) = is(l, *value.Float) && is(r, *value.Integer)
+//@ pred RI(l value.Value, r value.Value) = is(l, *value.RTime) && is(r, *value.Integer)
 //@ pred noInfF(v value.Value) = !v.(*value.Float).IsPositiveInf && !v.(*value.Float).IsNegativeInf
 
 //@ func Addition [C07 C08 C13]
@@ -29,6 +32,9 @@ package assign
 //@   ensures [float-float C07] FF(left,right) && old(noInfF(right)) && !isInf(fadd(old(FV(left)), old(FV(right)))) ==> err == nil && same(FV(left), fadd(old(FV(left)), old(FV(right))))
 //@   ensures [rtime-rtime C07] RR(left,right) ==> err == nil && RV(left) == old(RV(left)) + old(RV(right))
 //@   ensures [type-error C07] is(left, *value.Boolean) || is(left, *value.Backend) || is(left, *value.Acl) || is(left, *value.IP) ==> err != nil
+//@   ensures [int-float C07] IF(left,right) && !old(right.(*value.Float).Literal) && old(noInfF(right)) && !isInf(fadd(float64(old(IV(left))), old(FV(right)))) ==> err == nil && IV(left) == old(IV(left)) + int64(old(FV(right)))
+//@   ensures [float-int C07] FI(left,right) && old(noInfI(right)) && !isInf(fadd(old(FV(left)), float64(old(IV(right))))) ==> err == nil && same(FV(left), fadd(old(FV(left)), float64(old(IV(right)))))
+//@   ensures [rtime-int C07] RI(left,right) && !old(right.(*value.Integer).Literal) ==> err == nil && RV(left) == old(RV(left)) + time.Duration(old(IV(right))) * time.Second
 
 //@ func Subtraction [C07 C08 C13]
 //@   requires valid(left) && valid(right)
@@ -38,6 +44,7 @@ package assign
 //@   ensures [float-float C07] FF(left,right) && old(noInfF(right)) && !isInf(fsub(old(FV(left)), old(FV(right)))) ==> err == nil && same(FV(left), fsub(old(FV(left)), old(FV(right))))
 //@   ensures [rtime-rtime C07] RR(left,right) ==> err == nil && RV(left) == old(RV(left)) - old(RV(right))
 //@   ensures [type-error C07] is(left, *value.Boolean) || is(left, *value.Backend) || is(left, *value.Acl) || is(left, *value.IP) ==> err != nil
+//@   ensures [float-int C07] FI(left,right) && old(noInfI(right)) && !isInf(fadd(old(FV(left)), float64(old(IV(right))))) ==> err == nil && same(FV(left), fsub(old(FV(left)), float64(old(IV(right)))))
 
 //@ func Multiplication [C07 C08 C13]
 //@   requires valid(left) && valid(right)
@@ -46,6 +53,9 @@ package assign
 //@   ensures [int-int C07] II(left,right) && old(noInfI(right)) && noOvfMul(old(IV(left)), old(IV(right))) ==> err == nil && IV(left) == old(IV(left)) * old(IV(right))
 //@   ensures [float-float C07] FF(left,right) && old(noInfF(right)) && !isInf(fmul(old(FV(left)), old(FV(right)))) ==> err == nil && same(FV(left), fmul(old(FV(left)), old(FV(right))))
 //@   ensures [type-error C07] is(left, *value.Boolean) || is(left, *value.Backend) || is(left, *value.Acl) || is(left, *value.IP) ==> err != nil
+//@   ensures [int-float C07] IF(left,right) && !old(right.(*value.Float).Literal) && old(noInfF(right)) && !isInf(fmul(float64(old(IV(left))), old(FV(right)))) ==> err == nil && IV(left) == int64(fmul(float64(old(IV(left))), old(FV(right))))
+//@   ensures [rtime-int C07] RI(left,right) ==> err == nil && RV(left) == old(RV(left)) * time.Duration(old(IV(right)))
+//@   ensures [float-int C07] FI(left,right) && old(noInfI(right)) && !isInf(fmul(old(FV(left)), float64(old(IV(right))))) ==> err == nil && same(FV(left), fmul(old(FV(left)), float64(old(IV(right)))))
 
 //@ func Division [C07 C08 C13]
 //@   requires valid(left) && valid(right)
@@ -55,6 +65,8 @@ package assign
 //@   ensures [int-zero C07] II(left,right) && old(IV(right)) == 0 ==> err != nil
 //@   ensures [float-float C07] FF(left,right) && old(noInfF(right)) && !same(old(FV(right)), 0.0) && !isZero(old(FV(right))) && !isInf(fdiv(old(FV(left)), old(FV(right)))) ==> err == nil && same(FV(left), fdiv(old(FV(left)), old(FV(right))))
 //@   ensures [float-zero C07] FF(left,right) && isZero(old(FV(right))) ==> err != nil
+//@   ensures [float-int C07] FI(left,right) && old(noInfI(right)) && old(IV(right)) != 0 && !isInf(fdiv(old(FV(left)), float64(old(IV(right))))) ==> err == nil && same(FV(left), fdiv(old(FV(left)), float64(old(IV(right)))))
+//@   ensures [rtime-int C07] RI(left,right) && old(IV(right)) != 0 ==> err == nil && RV(left) == old(RV(left)) / time.Duration(old(IV(right)))
 
 //@ func Remainder [C07 C08 C13]
 //@   requires valid(left) && valid(right)
